@@ -232,19 +232,44 @@ def spec_crash(draw, tier):
     sp["binary"] = draw(st.booleans())
     sp["R"] = draw(st.sampled_from([2, 3, 4]))
     sp["second"] = draw(st.booleans())
+    # a metadynamics bias may publish its state for other walkers: that file is replaced in place (no .old) and must be complete
+    # whenever it exists
+    metas = [b for b in sp["z"]["biases"] if b["kind"] in ("meta", "meta_nogrid", "meta_wt")]
+    sp["mw"] = bool(metas) and draw(st.booleans())
+    if sp["mw"]:
+        for b in metas:
+            b["keep"] = False
     sp["pick"] = [draw(st.integers(0, 10 ** 6)) for _ in range(6)]
     return sp
 
 
+def crash_cfg(sp, prefix):
+    cfg = zoo.render(sp["z"])
+    if sp.get("mw"):
+        cfg = cfg.replace("metadynamics {\n", "metadynamics {\n  multipleReplicas on\n  replicaID r0\n  replicasRegistry %s\n  replicaUpdateFrequency 2\n" %
+                          (prefix + "_registry.txt"), 1)
+    return cfg
+
+
+def mw_bias_name(sp):
+    for b in sp["z"]["biases"]:
+        if b["kind"] in ("meta", "meta_nogrid", "meta_wt"):
+            return b["name"]
+    return None
+
+
 def crash_case(sp, prefix, t0, t1, load=None, die=None, post_run=True):
     L, nat = head_lines(sp, sp["binary"])
-    if die:
-        L.append("%s %d" % die)
-    L.append("config <<END\ncolvarsRestartFrequency %d\n%s\nEND" % (sp["R"], zoo.render(sp["z"])))
+    # relative prefix: the process runs in the case's directory (files that Colvars places in the working directory, such as
+    # those published for other walkers, are built from the working directory and the prefix)
+    rel = os.path.basename(prefix)
+    L.append("config <<END\ncolvarsRestartFrequency %d\n%s\nEND" % (sp["R"], crash_cfg(sp, rel)))
     if load:
         L.append("load " + pct(load))
-    L.append("outprefix " + pct(prefix))
+    L.append("outprefix " + pct(rel))
     L.append("io_reset")
+    if die:
+        L.append("%s %d" % die)     # operations are counted from here on
     L += traj_lines(sp, t0, t1, nat)
     if post_run:
         L.append("post_run")
@@ -255,7 +280,9 @@ def crash_case(sp, prefix, t0, t1, load=None, die=None, post_run=True):
 def try_load(sp, path):
     """(ok, saved state text) of loading 'path' in a fresh process"""
     L, nat = head_lines(sp, False)
-    L.append("config <<END\n%s\nEND" % zoo.render(sp["z"]))
+    scratch = os.path.join(os.path.dirname(path), "loadtest")
+    os.makedirs(scratch, exist_ok=True)
+    L.append("config <<END\n%s\nEND" % crash_cfg(sp, os.path.join(scratch, "lt")))
     # the input prefix is the path without ".colvars.state": give the backup a loadable name, as a user would
     tmpc = None
     if path.endswith(".old"):
@@ -264,7 +291,7 @@ def try_load(sp, path):
         path = tmpc
     L.append("load " + pct(path))
     L.append("savestr")
-    r = run_case("\n".join(L) + "\n")
+    r = run_case("\n".join(L) + "\n", cwd=scratch)
     if tmpc:
         os.unlink(tmpc)
     if r.crashed:
@@ -278,10 +305,12 @@ def try_load(sp, path):
 def reference_states(sp, t0, t1, load, wd, tag):
     """states a run writes (one per write), obtained from an undisturbed run that saves to a string after each writing step"""
     L, nat = head_lines(sp, False)
-    L.append("config <<END\ncolvarsRestartFrequency %d\n%s\nEND" % (sp["R"], zoo.render(sp["z"])))
+    refdir = os.path.join(wd, "ref_" + tag)
+    os.makedirs(refdir, exist_ok=True)
+    L.append("config <<END\ncolvarsRestartFrequency %d\n%s\nEND" % (sp["R"], crash_cfg(sp, "ref")))
     if load:
         L.append("load " + pct(load))
-    L.append("outprefix " + pct(os.path.join(wd, "ref_" + tag)))
+    L.append("outprefix ref")
     wig = any(b["kind"] == "alb" for b in sp["z"]["biases"])
     first = True
     for t in range(t0, t1 + 1):
@@ -291,7 +320,7 @@ def reference_states(sp, t0, t1, load, wd, tag):
             L.append("savestr")
         first = False
     L += ["post_run", "savestr"]
-    r = run_case("\n".join(L) + "\n")
+    r = run_case("\n".join(L) + "\n", cwd=refdir)
     if r.crashed or r.of("config")[0]["rc"] != 0:
         return None
     return [s["state"] for s in r.of("savestr")]
@@ -315,11 +344,16 @@ def _check_crash(sp, ctx, wd):
     kinds = "+".join(sorted(b["kind"] for b in sp["z"]["biases"]))
 
     def clean():
-        for f in glob.glob(prefix + "*"):
+        for f in glob.glob(prefix + "*") + glob.glob(os.path.join(wd, "*.files.txt")):
             try:
                 os.unlink(f)
             except OSError:
                 pass
+
+    def run_case(text, **kw):      # every run of this part works in the case's own directory (replica files go to the cwd)
+        from lib import core
+        return core.run_case(text, cwd=wd, **kw)
+    rep_state = prefix + ".colvars.%s.r0.state" % mw_bias_name(sp) if sp.get("mw") else None
     # reference: io operations and states of run 1
     refs = reference_states(sp, 0, T1, None, wd, "a")
     if not refs:
@@ -362,6 +396,20 @@ def _check_crash(sp, ctx, wd):
             else:
                 res.append((path, "rejected", info))
         if os.environ.get("VF_DBG"): print("VERDICT", what[:60], [(os.path.basename(p), s_, i_[:40]) for p, s_, i_ in res])
+        if rep_state and os.path.exists(rep_state):
+            # the state published for the other walkers is replaced in place: it must be complete whenever it exists
+            scratch = os.path.join(wd, "loadtest")
+            os.makedirs(scratch, exist_ok=True)
+            L_, nat_ = head_lines(sp, False)
+            L_.append("config <<END\n%s\nEND" % crash_cfg(sp, os.path.join(scratch, "lt")))
+            L_.append("clear_error")
+            L_.append("script cv bias %s load %s" % (mw_bias_name(sp), pct(rep_state)))
+            rr = run_case("\n".join(L_) + "\n")
+            sc = rr.of("script")
+            if rr.crashed or not sc or sc[0]["rc"] != 0 or sc[0]["errbits"]:
+                return Outcome(False, msg="%s: the state file published for the other walkers (%s, %d bytes) cannot be loaded: %s" % (
+                    what, os.path.basename(rep_state), os.path.getsize(rep_state), (sc[0]["errs"] if sc else rr.stderr[-300:])),
+                    sig="crash_replica_state_partial", case_text=case_text)
         if not any(r[1] == "ok" for r in res):
             return Outcome(False, msg="%s: no loadable state is left on disk: %s" % (
                 what, [(os.path.basename(p), s, i[:120]) for p, s, i in res]), sig="crash_no_state", case_text=case_text)
@@ -390,7 +438,7 @@ def _check_crash(sp, ctx, wd):
         log = os.path.join(wd, "strace.log")
         clean()
         exe = os.path.join(BUILD, "rel", "cvdrive")
-        subprocess.run(["strace", "-f", "-o", log, "-e", "trace=" + SET, exe, casefile, "/dev/null"], env=dict(ENV_BASE),
+        subprocess.run(["strace", "-f", "-o", log, "-e", "trace=" + SET, exe, casefile, "/dev/null"], env=dict(ENV_BASE), cwd=wd,
                        stdout=subprocess.DEVNULL, stderr=subprocess.DEVNULL, timeout=120)
         lines = [l for l in open(log, errors="replace").read().splitlines() if re.match(r"^\d+\s+(%s)\(" % SET.replace(",", "|"), l)]
         fd = None
@@ -408,7 +456,7 @@ def _check_crash(sp, ctx, wd):
             for N_ in allN[::step_]:
                 clean()
                 subprocess.run(["strace", "-f", "-o", "/dev/null", "-e", "trace=" + SET, "-e", "inject=%s:signal=KILL:when=%d" % (SET, N_),
-                                exe, casefile, "/dev/null"], env=dict(ENV_BASE), stdout=subprocess.DEVNULL, stderr=subprocess.DEVNULL, timeout=120)
+                                exe, casefile, "/dev/null"], env=dict(ENV_BASE), cwd=wd, stdout=subprocess.DEVNULL, stderr=subprocess.DEVNULL, timeout=120)
                 o = verdict("run killed by SIGKILL on entering system call %d of %d (%s)" % (N_, len(lines), lines[N_ - 1][:90]),
                             open(casefile).read(), refs)
                 if o is not None:
@@ -494,7 +542,7 @@ def _check_crash(sp, ctx, wd):
         known_seq.sig = "crash_backup_overwritten_by_partial"
         return known_seq
     return Outcome(True, nontrivial=later >= 1 and nwrites >= 2, cls=("bin" if sp["binary"] else "txt", kinds, "seq" if nseq else ""),
-                   strata=["crash_points"] * 1 + (["crash_syscall"] if nsys else []) + (["crash_sequence"] if nseq else []) + (["crash_binary"] if sp["binary"] else ["crash_text"]),
+                   strata=["crash_points"] * 1 + (["crash_mw"] if sp.get("mw") else []) + (["crash_syscall"] if nsys else []) + (["crash_sequence"] if nseq else []) + (["crash_binary"] if sp["binary"] else ["crash_text"]),
                    case_text=c0)
 
 
@@ -502,7 +550,7 @@ def view(spec):
     return {k: v for k, v in spec.items() if k not in ("traj", "fsys", "fracs")}
 
 
-_REQ = ["truncate:trunc_text", "truncate:trunc_binary", "truncate:trunc_inside", "truncate:trunc_rejected",
+_REQ = ["crash:crash_mw", "truncate:trunc_text", "truncate:trunc_binary", "truncate:trunc_inside", "truncate:trunc_rejected",
         "crash:crash_points", "crash:crash_sequence", "crash:crash_binary", "crash:crash_text"]
 REQUIRED_STRATA = {"quick": _REQ, "thorough": _REQ + ["crash:crash_syscall"]}
 
